@@ -28,11 +28,13 @@ Theorem C17_skip_creates_nothing : forall hist d, resync LSkip hist d = d.
 Proof. exact skip_creates_nothing. Qed.
 Print Assumptions C17_skip_creates_nothing.
 
-(* Known finding C17-KF1 (kept): follow mode resolves a RELATIVE target against the process's working directory,
-   not against the link's directory: when it does not resolve from there nothing is copied *)
-Theorem C17_follow_relative_refuted : exists s, l_cwd s = RMissing /\ sync_link LFollow s DAbsent = DAbsent.
-Proof. exists (mk_slink 5 RMissing). split; reflexivity. Qed.
-Print Assumptions C17_follow_relative_refuted.
+(* a link that does not resolve (dangling) has nothing to copy in follow mode: nothing is created.  (On the pinned commit a
+   RELATIVE target was resolved against the process's working directory -- `fix: resolve a relative symlink target
+   against the link's directory ...`, recorded as fixed in known_findings.json; [l_cwd] now is the resolution from the
+   link's own directory.) *)
+Theorem C17_follow_dangling_copies_nothing : forall s, l_cwd s = RMissing -> sync_link LFollow s DAbsent = DAbsent.
+Proof. intros s H. unfold sync_link, exec_link, plan_link. cbn. rewrite H. reflexivity. Qed.
+Print Assumptions C17_follow_dangling_copies_nothing.
 
 Example ex_history : resync LPreserve [mk_slink 1 RMissing; mk_slink 1 RMissing; mk_slink 2 (RFile 9)] (DFile 3) = DLink 2.
 Proof. reflexivity. Qed.
